@@ -388,6 +388,12 @@ func (e *Eng) equal(fr *Frame, st *State, xt, yt types.Type, x, y Val) T {
 		if !ok {
 			panic(unsupportedErr{"interface compared with non-interface"})
 		}
+		if b.Ty == bvLit(32, 0) {
+			return tEq(a.Ty, b.Ty)
+		}
+		if a.Ty == bvLit(32, 0) {
+			return tEq(a.Ty, b.Ty)
+		}
 		return tAnd(tEq(a.Ty, b.Ty), tEq(a.V, b.V))
 	case *StructV:
 		s := under(xt).(*types.Struct)
@@ -662,16 +668,12 @@ func (e *Eng) typeAssert(fr *Frame, st *State, in *ssa.TypeAssert) Val {
 		res = x
 		if x.Boxed != nil && types.Implements(x.BoxedT, under(at).(*types.Interface)) {
 			ok = "true"
-		} else if in.CommaOk {
-			okc := e.fresh("implements", sBool)
-			ok = tAnd(tNot(tEq(x.Ty, bvLit(32, 0))), okc)
+		} else {
+			// "dynamic type implements I" is a function of the type tag only
+			f := e.q.DeclareFun("impl|"+typeName(at), []string{sTag}, sBool)
+			ok = tAnd(tNot(tEq(x.Ty, bvLit(32, 0))), app(f, x.Ty))
 			if under(at).(*types.Interface).NumMethods() == 0 {
 				ok = tNot(tEq(x.Ty, bvLit(32, 0)))
-			}
-		} else {
-			ok = tNot(tEq(x.Ty, bvLit(32, 0)))
-			if under(at).(*types.Interface).NumMethods() > 0 {
-				e.note("interface-to-interface assertion: only nil-ness is checked")
 			}
 		}
 	} else {
